@@ -17,7 +17,7 @@ class Run:
 
 def run_entry(lib, lead, name, scn):
     """scn: fast(bool), shape_ok(bool), qshape_ok(bool), sink('ok'|'err')"""
-    prefix = 'interp1d::Interp1D::' if lead == 1 else 'interp2d::Interp2D::'
+    prefix = 'Interp1D::' if lead == 1 else 'Interp2D::'
     body = lib.body(prefix + name)
     if body is None:
         return None
@@ -106,11 +106,29 @@ def batch_short_circuit(chk, lib, rule, report_unsupported=True):
                     continue
                 same = is_err(r.value) and deref_all(r.value.fields['0']) is getattr(r.m, 'err_token', None)
                 chk.ob(rule, "%s: the strategy's error for a failing element is returned unchanged as the result of the whole call" % key,
-                       same, lib.body(('interp1d::Interp1D::' if lead == 1 else 'interp2d::Interp2D::') + name)['span'], key + '-err-identity')
+                       same, lib.body(('Interp1D::' if lead == 1 else 'Interp2D::') + name)['span'], key + '-err-identity')
                 chk.ob(rule, "%s: exactly one strategy call happens for the failing element and none after it (got %d)" % (key, len(r.m.sinks)),
                        len(r.m.sinks) == 1, '', key + '-no-call-after-error')
                 if fast:
                     steps = [ev for ev in r.m.events if ev[0] == 'fold_step']
                     chk.ob(rule, "%s: the fold step maps Err(e) to FoldWhile::Done (which stops the Zip), got %s" % (key, steps),
                            steps == [('fold_step', 'e', 'Done')], '', key + '-done')
+    return n
+
+
+def never_rejects_itself(chk, lib, rule):
+    """the entry points add no rejection of their own: with well-shaped arguments and a strategy that answers, every entry point
+    returns Ok after handing each element to the strategy - no decision at entry level depends on the query value"""
+    n = 0
+    for r in all_runs(lib):
+        if r.scn.get('sink') != 'ok' or not r.scn.get('shape_ok', True) or not r.scn.get('qshape_ok', True):
+            continue
+        key = '%dd-%s-%s' % (r.lead, r.name, ','.join('%s=%s' % kv for kv in sorted(r.scn.items())))
+        n += 1
+        if r.outcome != 'return':
+            chk.ob(rule, "%s: with a strategy that answers, the entry point returns (got %s: %s)" % (key, r.outcome, r.exc), False,
+                   r.exc.where if r.exc else '', key + '-no-own-rejection')
+            continue
+        chk.ob(rule, "%s: with a strategy that answers every element the entry point returns Ok and reaches the strategy (%d calls seen for the generic elements)" %
+               (key, len(r.m.sinks)), is_ok(r.value) and len(r.m.sinks) >= 1, '', key + '-no-own-rejection')
     return n
